@@ -186,28 +186,32 @@ def r4(chk):
         for m in method_calls(fn.body):
             if render(m["recv"]).replace(" ", "") in ("errors", "*errors") and m["method"] in ("clear", "remove", "retain", "drain", "truncate", "pop"):
                 chk.bad("R4", f"{fn.qual}:errors.{m['method']}", VALIDATE, m["line"], "collected diagnostics are dropped")
-    # documented class raised with an early Err at parse time: repeat conflicts
-    for f, qual_rx in ((ATTR, r"^TraitAttrCore::merge$"), (ATTR, r"^get_data_type_attrs$")):
+    # documented classes (conflicting repeat parameters, unterminated repeat block) raised with an early Err at parse time.
+    # Keyed by the MESSAGE (the same defect moved into a helper function is the same finding), ordinal in source order for duplicates.
+    ords = {}
+    for f in (ATTR, AST):
         for fn in repo.fns(f):
-            if not re.search(qual_rx, fn.qual):
+            if repo.is_test_item(getattr(fn, "cfgs", [])) if hasattr(fn, "cfgs") else False:
                 continue
-            n = 0
             for node in walk(fn.body):
+                e_ = None
                 if node["k"] == "Try" and node["expr"]["k"] == "Call" and render(node["expr"]["func"]) == "Err":
-                    msg = render(node["expr"])
-                    if "repeat" in msg.lower() or "overriden" in msg.lower():
-                        chk.bad("R4", f"{fn.qual}:early-Err#{n}", f, node["line"],
-                                "documented misuse class (conflicting repeat parameters) aborts parsing with an early Err: other broken rules of the same input are not reported in that expansion",
-                                found=msg[:100])
-                        n += 1
+                    e_ = node["expr"]
+                elif node["k"] == "Return" and "expr" in node and node["expr"]["k"] == "Call" and render(node["expr"]["func"]) == "Err":
+                    e_ = node["expr"]
+                if e_ is None:
+                    continue
+                lits = [str(x["lit"]["v"]) for x in walk(e_) if x["k"] == "Lit" and isinstance(x["lit"].get("v"), str)]
+                lits += [m_.group(1) for x in walk(e_) if x["k"] == "Macro" and x["last"] == "format" for m_ in [re.match(r'\s*"((?:[^"\\]|\\.)*)"', x.get("src", ""))] if m_]
+                msg = next((l for l in lits if re.search(r"will be overriden|must be terminated", l)), None)
+                if msg is None:
+                    continue
+                o = ords.get(msg, 0)
+                ords[msg] = o + 1
+                cls = "conflicting repeat parameters" if "overriden" in msg else "unterminated repeat block"
+                chk.bad("R4", f"early-Err[{msg[:44]}]" + (f"#{o}" if o else ""), f, node["line"],
+                        f"documented misuse class ({cls}) aborts parsing with an early Err: other broken rules of the same input are not reported in that expansion", found=render(e_)[:100])
     for fn in repo.fns(AST):
-        n = 0
-        for node in walk(fn.body):
-            if node["k"] == "Return" and "expr" in node and render(node["expr"]).startswith("Err(") and "repeat" in render(node["expr"]).lower():
-                chk.bad("R4", f"{fn.qual}:early-Err#{n}", AST, node["line"],
-                        "documented misuse class (unterminated repeat block) aborts parsing with an early Err: other broken rules of the same input are not reported in that expansion",
-                        found=render(node["expr"])[:100])
-                n += 1
         n = 0
         for node in walk(fn.body):
             if node["k"] == "Macro" and node["last"] == "panic" and "repeat" in node["src"]:
